@@ -116,6 +116,7 @@ func loadWorld(repo string, overlay map[string][]byte, extraEnv ...string) (*Wor
 		return nil, fmt.Errorf("no module packages (%s) among %d loaded packages", modPath, len(pkgs))
 	}
 	computeNoReturn(w.ModFuncs)
+	curWorld = w
 	// named interface types of the module, by name (isInvokeOf resolves narrowed views of them)
 	moduleIfaces = map[string][]*types.Named{}
 	for _, p := range w.Pkgs {
@@ -435,3 +436,6 @@ func (c *Ctx) bound(quick, thorough int) int {
 	}
 	return quick
 }
+
+// curWorld: the program being analysed (for primitives that are plain functions).
+var curWorld *World
